@@ -312,7 +312,15 @@ func c20Oracle(sc c20Scenario, o *c20Obs) []Finding {
 				return
 			}
 			if g.Health == "up" {
-				if succ < 0 || !(g.Seq > ps[succ].EndSeq) {
+				// some successful probe must have ended before this read (with a re-added target the
+				// first success by start order may belong to the old incarnation and end later)
+				ended := false
+				for _, p := range ps {
+					if p.OK && p.EndSeq < g.Seq {
+						ended = true
+					}
+				}
+				if !ended {
 					// a success may exist in the (invisible) old chain of a re-added target
 					add("estimate-from-success", "C20:healthy-without-success:"+when, fmt.Sprintf("target %s reported health up (series %d) without a successful probe before", n, g.Series))
 				} else if g.Series != kept[n] || g.Total != kept[n]+3 {
